@@ -234,7 +234,18 @@ func (r *Replica) Exec(op *Op) J {
 		ev["panic"] = pm
 		ev["inblock"] = r.InBlock
 		ev["lastH"] = small(r.Height)
-		ev["resp"] = J{"code": int(resp.Code), "raw": r.KR.Tok(sha(resp.Value)), "len": len(resp.Value), "parsed": wrapParsed(r.parseQuery(op.Path, resp))}
+		parsed := r.parseQuery(op.Path, resp)
+		rawBytes := resp.Value
+		if op.Path == "proposal" {
+			// the answer contains a map (the voters) that the node's JSON encoder writes in no fixed order: the digest
+			// used for "the answer never changes" is taken over the decoded content instead of the bytes
+			if _, bad := parsed.(string); !bad {
+				if bz, err := json.Marshal(parsed); err == nil {
+					rawBytes = bz
+				}
+			}
+		}
+		ev["resp"] = J{"code": int(resp.Code), "raw": r.KR.Tok(sha(rawBytes)), "len": len(resp.Value), "parsed": wrapParsed(parsed)}
 	case "restart":
 		return r.Restart()
 	case "info":
@@ -593,11 +604,27 @@ func (r *Replica) QueryAll(h int64) J {
 		out["gov"] = J{}
 	}
 	out["props"], out["fprops"] = J{}, J{}
+	// the same proposals asked for one by one, by transaction hash (another code path of the query handler)
+	propsH, fpropsH := J{}, J{}
 	if resp, pm := r.query("proposal", nil, h); pm == "" && resp.Code == 0 {
 		if p, ok := r.parseQuery("proposal", resp).(J); ok {
 			out["props"], out["fprops"] = p["props"], p["fprops"]
+			for _, m := range []J{p["props"].(J), p["fprops"].(J)} {
+				for id := range m {
+					if one, pm := r.query("proposal", r.KR.HashOf(id), h); pm == "" && one.Code == 0 {
+						if q, ok := r.parseQuery("proposal", one).(J); ok && q["prop"] != nil {
+							if q["status"] == "voting" {
+								propsH[id] = q["prop"]
+							} else {
+								fpropsH[id] = q["prop"]
+							}
+						}
+					}
+				}
+			}
 		}
 	}
+	out["propsH"], out["fpropsH"] = propsH, fpropsH
 	out["raw"] = raw
 	return out
 }
